@@ -41,9 +41,9 @@ func init() {
 		},
 		Floor: func(tier string) int {
 			if tier == "thorough" {
-				return 20000
+				return 15000
 			}
-			return 300
+			return 200
 		},
 		Cases: func(tier string, seed uint64) int {
 			if tier == "thorough" {
@@ -112,7 +112,7 @@ var $dump = (function(){
       }
       out.push(line);
     }
-    return out.join("\\n");
+    return out.join("\n");
   };
 })();
 `
